@@ -2,6 +2,7 @@
 client state machine, task.Clock as reactor, harness/shims/priority.py as the priority tree) vs the Lean
 model TwistedModel/Http/H2Flow.lean, plus the property oracle evaluated on the frames the server wrote."""
 import os
+import re
 import sys
 import zlib
 
@@ -30,15 +31,30 @@ RULE = ("histories over 1..4 concurrent streams of ops {open stream, Request.wri
         "INITIAL_WINDOW_SIZE (up and down, incl. below the bytes already sent => negative windows) and MAX_FRAME_SIZE, "
         "single send-loop iterations with an arbitrary scheduler choice, bounded runs of the loop}; small windows "
         "(0..60) so that every write meets the window edge, chunks around MAX_FRAME_SIZE (16384) for the frame split; "
-        "every history ends with a settle phase (windows opened by WINDOW_UPDATE or by SETTINGS, loop run, all "
-        "streams finished, loop run).  distinct = (op kinds used, #streams, negative window seen, producer paused/"
-        "resumed, frame split seen, loop parked/spinning, outcome)")
+        "every history ends with a settle phase (transport resumed, windows opened by WINDOW_UPDATE or by SETTINGS, "
+        "loop run, all streams finished, loop run).  A second batch (500 quick / 8000 thorough cases) uses one or two "
+        "of four further op classes: tp/tr = the transport pauses / resumes the connection (H2Connection."
+        "pauseProducing/resumeProducing; writes — incl. the first of a response, whose HEADERS are then buffered — "
+        "loop iterations, window updates and finishes happen while it is paused); areg = a RE-ENTRANT push producer "
+        "that writes from inside resumeProducing() until paused, and unregisters + finishes the request from inside "
+        "that callback when it is resumed with nothing left (plans that fill the window exactly in half of them, "
+        "followed by loop runs and a stream / connection WINDOW_UPDATE or SETTINGS); ws = H2Stream.writeSequence with "
+        "a list / tuple / iterator / generator of chunks, empty chunks included; prio = peer PRIORITY frames for open "
+        "and for idle streams (before their HEADERS).  Model-compared: the basic language, ws without empty chunks "
+        "(= that many writes), prio on open streams (= nothing); oracle-only: tp/tr, areg, ws with an empty chunk, "
+        "prio on an idle stream.  distinct = (op kinds used, #streams, negative window seen, producer paused/"
+        "resumed, frame split seen, loop parked/spinning/behind the transport, re-entrant write/finish, empty chunk, "
+        "one-shot iterable, outcome)")
 ASSUMES = [
-    "the transport never pauses the connection (H2Connection.pauseProducing/_consumerBlocked path not driven)",
-    "producers are push producers that stop writing while paused; pull producers (_PullToPush uses the global "
-    "cooperator) are not driven",
-    "the peer obeys RFC 7540: windows stay <= 2^31-1, MAX_FRAME_SIZE in [16384, 2^24-1], no RST_STREAM/GOAWAY/PRIORITY, "
-    "WINDOW_UPDATE only on streams it still has open",
+    "the transport pauses the connection at most once before it resumes it (pauseProducing twice in a row replaces "
+    "the Deferred the loop waits on; IPushProducer consumers do not do that); the Lean model does not contain the "
+    "transport: histories with tp/tr are judged by the oracle only",
+    "producers are push producers that stop writing while paused (either driven from outside, or re-entrant: "
+    "writing / finishing from inside resumeProducing — oracle-only, not in the Lean model); pull producers "
+    "(_PullToPush uses the global cooperator) are not driven",
+    "the peer obeys RFC 7540: windows stay <= 2^31-1, MAX_FRAME_SIZE in [16384, 2^24-1], no RST_STREAM/GOAWAY, "
+    "WINDOW_UPDATE only on streams it still has open; PRIORITY frames are sent (open and idle streams) but the "
+    "stand-in priority tree is flat: weights and dependencies do not influence the schedule",
     "no write after finish; request bodies are empty (GET, END_STREAM on HEADERS)",
     "stream_body_complete_in_order (termination) is stated for states in which every stream's queued bytes fit its "
     "stream window and the connection window covers their sum, and for a run of more than Σ(queued bytes + queued "
@@ -50,6 +66,8 @@ TRUSTED = [
     "every choice sequence, the real library's weighted choice is one of them",
     "h2 (installed) does the server-side window accounting that _http2.py reads (local_flow_control_window, "
     "max_outbound_frame_size) and refuses oversize send_data with FlowControlError; the model transcribes that contract",
+    "the re-entrant producer's own log lines (W<sid>:<start>:<n> before each write, F<sid> before finish) tell the "
+    "oracle what the application wrote and when",
 ]
 MANIFEST = {
     "text": "Lean theorems (TwistedProps/C29.lean) over the executable model of H2Connection._sendPrioritisedData/"
@@ -59,9 +77,14 @@ MANIFEST = {
             "(termination, any scheduler, no fairness assumption) once the windows cover what is queued, more than "
             "Σ(queued bytes + chunks) iterations end parked with all queues empty, each stream's DATA frames on the wire "
             "concatenating to exactly its queued bytes and END_STREAM sent iff finished; model tied on every run to the "
-            "real H2Connection driven by a real h2 client with task.Clock.",
-    "note": "partial by nature: h2's accounting and the priority shim are trusted; transport back-pressure and pull "
-            "producers are outside the model",
+            "real H2Connection driven by a real h2 client with task.Clock.  The frame-level oracle (windows, max frame "
+            "size, in-order bodies, END_STREAM last, no stalled stream, no producer left paused with room in the window, "
+            "loop alive, peer accepts every frame, everything delivered after the settle phase) additionally judges "
+            "histories outside the model: transport pause/resume, re-entrant producers, writeSequence with empty "
+            "chunks / one-shot iterables, peer PRIORITY frames.",
+    "note": "partial by nature: h2's accounting and the priority shim are trusted; transport back-pressure, re-entrant "
+            "producers and PRIORITY on idle streams are checked by the oracle on the real code but are outside the Lean "
+            "model; pull producers are not driven",
     "technique": "Lean 4 proof (invariants by induction over histories; decreasing measure for termination) + "
                  "differential tie + frame-level oracle",
     "design_ref": "DESIGN.md §7.4 C29",
@@ -91,6 +114,8 @@ def digest(b):
 
 @implementer(IPushProducer)
 class _Producer:
+    done = False
+
     def __init__(self, log, sid):
         self.log, self.sid, self.paused, self.stopped = log, sid, False, False
 
@@ -105,6 +130,47 @@ class _Producer:
     def stopProducing(self):
         self.stopped = True
         self.log.append("S%d" % self.sid)
+
+
+@implementer(IPushProducer)
+class _AutoProducer:
+    """A push producer that behaves like the real ones: it writes from inside resumeProducing() (re-entrantly,
+    while H2Stream.windowUpdated / _windowsChanged / _handleWindowUpdate are on the stack) until it is paused or its
+    plan is exhausted; when it is resumed (or started) with nothing left it unregisters itself and, if `fin`,
+    finishes the request — still inside the callback.  What it does is logged (`W<sid>:<start>:<n>` before each
+    write, `F<sid>` before finish) so that the oracle can account for it in order with the frames."""
+
+    def __init__(self, world, sid, plan, fin):
+        self.w, self.log, self.sid, self.plan, self.fin = world, world.log, sid, [list(x) for x in plan], fin
+        self.paused, self.stopped, self.done = False, False, False
+
+    def pauseProducing(self):
+        self.paused = True
+        self.log.append("P%d" % self.sid)
+
+    def resumeProducing(self):
+        self.paused = False
+        self.log.append("R%d" % self.sid)
+        self.pump()
+
+    def stopProducing(self):
+        self.stopped = True
+        self.log.append("S%d" % self.sid)
+
+    def pump(self):
+        req = self.w.requests[self.sid]
+        while not (self.paused or self.stopped or self.done) and self.plan:
+            start, n = self.plan.pop(0)
+            self.log.append("W%d:%d:%d" % (self.sid, start, n))
+            req.write(chunk_bytes(start, n))
+        if not (self.paused or self.stopped or self.done) and not self.plan:
+            self.done = True
+            req.unregisterProducer()
+            if self.w.producers.get(self.sid) is self:
+                del self.w.producers[self.sid]
+            if self.fin:
+                self.log.append("F%d" % self.sid)
+                req.finish()
 
 
 class _Request(http.Request):
@@ -160,6 +226,7 @@ class World:
         self.producers = {}
         self.dead = None
         self.client_error = None
+        self.tpaused = False
         reqcls = type("_Req", (_Request,), {"registry": self.requests})
         self.server = H2Connection(reactor=self.clock)
         self.server.requestFactory = reqcls
@@ -178,6 +245,7 @@ class World:
                 self.dead = type(e).__name__
                 self.log.append("X" + self.dead)
 
+        self.iteration = iteration
         self.server._sendPrioritisedData = iteration
         for call in self.clock.calls:
             call.func = iteration
@@ -245,6 +313,8 @@ class World:
             loop = "p"
         elif self.clock.calls:
             loop = "s"
+        elif s._consumerBlocked is not None and any(cb[0][0] is self.iteration for cb in s._consumerBlocked.callbacks):
+            loop = "w"      # waiting behind the paused transport: resumeProducing() runs the next iteration
         else:
             loop = "d"
         parts = []
@@ -257,13 +327,15 @@ class World:
             parts.append("%d%s%d%sw%d%s" % (sid, "a" if s.priority._active.get(sid) else "b", nbytes,
                                             "e" if end else "", win,
                                             "" if not st.producer else ("+" if st._producerProducing else "-")))
-        return "%sc%dm%d[%s]" % (loop, s.conn.outbound_flow_control_window, s.conn.max_outbound_frame_size,
-                                 ",".join(parts))
+        return "%sc%dm%d[%s]%s" % (loop, s.conn.outbound_flow_control_window, s.conn.max_outbound_frame_size,
+                                   ",".join(parts), "T" if s._consumerBlocked is not None else "")
 
 
 def _apply(w, op):
     """Returns False when the op is not applicable in the current state (skipped, printed as '~')."""
     k = op[0]
+    if w.client_error is not None and k in ("req", "wu", "iws", "mfs", "prio"):
+        return False        # the peer has already refused the server's frames and closed (reported by the oracle)
     if k == "req":
         sid = op[1]
         if sid % 2 == 0 or sid in w.client.streams or sid <= w.client.highest_outbound_stream_id:
@@ -272,7 +344,7 @@ def _apply(w, op):
                                     (b":authority", b"x")], end_stream=True)
         w.flush()
         return True
-    if k in ("w", "pw", "reg", "unreg", "fin"):
+    if k in ("w", "pw", "reg", "unreg", "fin", "areg", "ws"):
         sid = op[1]
         req = w.requests.get(sid)
         if req is None or req.finished:
@@ -283,7 +355,7 @@ def _apply(w, op):
             req.write(chunk_bytes(op[2], op[3]))
         elif k == "pw":
             p = w.producers.get(sid)
-            if p is None or p.paused or p.stopped or op[3] == 0:
+            if p is None or isinstance(p, _AutoProducer) or p.paused or p.stopped or op[3] == 0:
                 return False
             req.write(chunk_bytes(op[2], op[3]))
         elif k == "reg":
@@ -291,15 +363,28 @@ def _apply(w, op):
                 return False
             p = w.producers[sid] = _Producer(w.log, sid)
             req.registerProducer(p, True)
+        elif k == "areg":
+            if sid in w.producers:
+                return False
+            p = w.producers[sid] = _AutoProducer(w, sid, op[2], bool(op[3]))
+            req.registerProducer(p, True)
+            p.pump()        # a push producer starts producing by itself
+        elif k == "ws":
+            if not req.startedWriting:
+                req.write(b"")      # response HEADERS (Request.write passes no empty data to the channel)
+            chunks = [chunk_bytes(a, n) for a, n in op[3]]
+            seq = {"list": lambda: chunks, "tuple": lambda: tuple(chunks), "iter": lambda: iter(chunks),
+                   "gen": lambda: (c for c in chunks)}[op[2]]()
+            req.channel.writeSequence(seq)
         elif k == "unreg":
             if sid not in w.producers:
                 return False
             req.unregisterProducer()
-            del w.producers[sid]
+            w.producers.pop(sid).done = True
         else:
             if sid in w.producers:
                 req.unregisterProducer()
-                del w.producers[sid]
+                w.producers.pop(sid).done = True
             req.finish()
         w.feed_client()
         return True
@@ -325,6 +410,31 @@ def _apply(w, op):
         if not 16384 <= op[1] <= 16777215:
             return False
         w.client.update_settings({h2.settings.SettingCodes.MAX_FRAME_SIZE: op[1]})
+        w.flush()
+        return True
+    if k == "tp":
+        if w.server._consumerBlocked is not None:
+            return False
+        w.server.pauseProducing()
+        return True
+    if k == "tr":
+        if w.server._consumerBlocked is None:
+            return False
+        w.server.resumeProducing()
+        w.feed_client()
+        return True
+    if k == "prio":
+        sid, weight, dep, excl = op[1:5]
+        if sid % 2 == 0 or dep == sid or not 1 <= weight <= 256:
+            return False
+        if sid in w.client.streams and not w.client_open(sid):
+            return False
+        if sid not in w.client.streams and sid <= w.client.highest_outbound_stream_id:
+            return False
+        try:
+            w.client.prioritize(sid, weight=weight, depends_on=dep, exclusive=bool(excl))
+        except h2.exceptions.ProtocolError:
+            return False
         w.flush()
         return True
     if k == "tick":
@@ -361,24 +471,57 @@ def _tok(op):
             "iws": "iws", "mfs": "mfs", "tick": "tick", "run": "run"}[k] + "".join(":%d" % x for x in op[1:])
 
 
+def _model_tokens(c):
+    """Per op: the model tokens it stands for, or None when the case has no model counterpart (oracle-only).
+      ws (H2Stream.writeSequence) of non-empty chunks = that many writes (`for chunk in iovec: self.write(chunk)`);
+        with an empty chunk the channel queues b"" — Request.write never does, the model's `write` op skips it;
+      prio (peer PRIORITY) on a stream that is already open = nothing (the flat priority tree ignores weights and
+        dependencies); on an idle stream it changes the tree's insertion order, which is the model's scheduler order;
+      tp / tr (transport back-pressure) and areg (re-entrant producer) are outside the model."""
+    opened, out = set(), []
+    for op in c["ops"]:
+        k = op[0]
+        if k in ("tp", "tr", "areg"):
+            return None
+        if k == "ws":
+            if any(n == 0 for _, n in op[3]):
+                return None
+            out.append(["w:%d:%d:%d" % (op[1], a, n) for a, n in op[3]])
+        elif k == "prio":
+            if op[1] not in opened:
+                return None
+            out.append([])
+        else:
+            if k == "req":
+                opened.add(op[1])
+            out.append([_tok(op)])
+    return out
+
+
 def model_line(c):
-    return " ".join(_tok(op) for op in c["ops"])
+    toks = _model_tokens(c)
+    if toks is None or not any(toks):
+        return None
+    return " ".join(t for ts in toks for t in ts)
 
 
 # ----------------------------------------------------------------------------------------
 # the property, evaluated on what the server wrote (independent of the model)
 
+_PART = re.compile(r"^(\d+)([ab])(\d+)(e?)w(-?\d+)([+-]?)$")
+
+
 def _parse_seg(seg):
+    """→ skipped, events, loop letter, {sid: 'a'|'b'}, {sid: '+'|'-'|''} (producer producing / paused / none)"""
     skipped = seg.startswith("~")
     evs, _, state = seg.lstrip("~").partition(";")
-    flags = {}
+    flags, prods = {}, {}
     inner = state[state.index("[") + 1:state.rindex("]")] if "[" in state else ""
     for part in filter(None, inner.split(",")):
-        i = 0
-        while part[i].isdigit():
-            i += 1
-        flags[int(part[:i])] = part[i]
-    return skipped, [e for e in evs.split(".") if e], state[:1], flags
+        m = _PART.match(part)
+        flags[int(m.group(1))] = m.group(2)
+        prods[int(m.group(1))] = m.group(6)
+    return skipped, [e for e in evs.split(".") if e], state[:1], flags, prods
 
 
 def oracle(c, out):
@@ -393,9 +536,11 @@ def oracle(c, out):
     conn, iws, mfs = INITIAL_WINDOW, INITIAL_WINDOW, DEFAULT_MFS
     wins, written, delivered, finished, ended = {}, {}, {}, set(), set()
     nchunks = {}        # per stream: an upper bound of the number of queued chunks (END_STREAM marker included)
+    empties = set()     # streams that had an empty chunk queued (writeSequence): nchunks is never reset for them
+    tpaused = False     # the transport has paused the connection (H2Connection.pauseProducing)
     loop = "s"
     for i, (op, seg) in enumerate(zip(ops, segs)):
-        skipped, evs, loop, flags = _parse_seg(seg)
+        skipped, evs, loop, flags, prods = _parse_seg(seg)
         where = "op %d %r" % (i, op)
         must_drain = None
         if not skipped:
@@ -406,16 +551,26 @@ def oracle(c, out):
             elif k in ("w", "pw"):
                 written[op[1]] += chunk_bytes(op[2], op[3])
                 nchunks[op[1]] += 1
+            elif k == "ws":
+                for a, n in op[3]:
+                    written[op[1]] += chunk_bytes(a, n)
+                    nchunks[op[1]] += 1
+                    if n == 0:
+                        empties.add(op[1])
             elif k == "fin":
                 finished.add(op[1])
                 nchunks[op[1]] += 1
+            elif k == "tp":
+                tpaused = True
+            elif k == "tr":
+                tpaused = False
             elif k == "run":
                 # termination (TwistedProps.C29.stream_body_complete_in_order, evaluated on the implementation with
                 # the oracle's own accounting): every queue fits its stream window, the connection window covers
                 # the sum, and the run is longer than Σ(queued bytes + queued chunks)  ⇒  it ends parked, drained.
                 live = [sid for sid in wins if sid not in ended]
                 pend = {sid: len(written[sid]) - len(delivered[sid]) for sid in live}
-                if (all(pend[sid] <= wins[sid] for sid in live) and sum(pend.values()) <= conn
+                if (not tpaused and all(pend[sid] <= wins[sid] for sid in live) and sum(pend.values()) <= conn
                         and op[1] > sum(pend[sid] + nchunks[sid] for sid in live)):
                     must_drain = sum(pend[sid] + nchunks[sid] for sid in live)
             elif k == "wu":
@@ -434,7 +589,14 @@ def oracle(c, out):
             if e[0] == "X":
                 return {"key": "send-loop-died", "detail": "%s: %s escaped _sendPrioritisedData; the loop is never "
                         "rescheduled, queued data of every stream is stuck" % (where, e[1:])}
-            if e[0] == "D":
+            if e[0] == "W":     # a re-entrant producer wrote (logged by the producer itself, before the call)
+                sid, a, n = (int(x) for x in e[1:].split(":"))
+                written[sid] += chunk_bytes(a, n)
+                nchunks[sid] += 1
+            elif e[0] == "F":   # … finished the request
+                finished.add(int(e[1:]))
+                nchunks[int(e[1:])] += 1
+            elif e[0] == "D":
                 sid, n, dg = (int(x) for x in e[1:].split(":"))
                 if sid not in wins or sid in ended:
                     return {"key": "data-on-closed-stream", "detail": "%s: %s" % (where, e)}
@@ -449,7 +611,7 @@ def oracle(c, out):
                 delivered[sid] += exp
                 conn -= n
                 wins[sid] -= n
-                if delivered[sid] == written[sid]:
+                if delivered[sid] == written[sid] and sid not in empties:
                     nchunks[sid] = 1 if sid in finished else 0
             elif e[0] == "E":
                 sid = int(e[1:])
@@ -459,6 +621,9 @@ def oracle(c, out):
                 ended.add(sid)
         if loop == "d":
             return {"key": "send-loop-died", "detail": "%s: no iteration of the send loop is pending and it is not parked" % where}
+        if loop == "w" and not tpaused:
+            return {"key": "send-loop-died", "detail": "%s: the send loop waits behind a transport that is not paused; "
+                    "nothing will run it again" % where}
         if must_drain is not None:
             left = [sid for sid in wins if sid not in ended and (sid in finished or delivered[sid] != written[sid])]
             if left or loop != "p":
@@ -467,7 +632,9 @@ def oracle(c, out):
                         "complete" % (where, must_drain, {"p": "parked", "s": "still scheduled"}.get(loop, loop), left)}
             _DRAIN_CHECKS[0] += 1
         # "streams blocked on flow control resume when the window opens": no stream with something to send and an
-        # open window may be left with the send loop idle, or blocked in the priority tree
+        # open window may be left with the send loop idle, or blocked in the priority tree; and a producer that was
+        # paused (by flow control: nothing else pauses it) may not stay paused while its stream has room beyond
+        # what is queued.  (While the transport is paused the loop waits behind it — 'w' — that is not a stall.)
         for sid in wins:
             if sid in ended:
                 continue
@@ -481,6 +648,10 @@ def oracle(c, out):
                 if flags.get(sid) != "a":
                     return {"key": "stalled-blocked-in-priority", "detail": "%s: stream %d: %s, but it is blocked in "
                             "the priority tree" % (where, sid, what)}
+            if prods.get(sid) == "-" and min(conn, wins[sid]) - pending > 0:
+                return {"key": "producer-not-resumed", "detail": "%s: stream %d: its producer is paused although the "
+                        "windows (conn=%d stream=%d) leave %d bytes of room beyond the %d queued" % (
+                            where, sid, conn, wins[sid], min(conn, wins[sid]) - pending, pending)}
     if client:
         return {"key": "peer-rejected", "detail": "the h2 client refused the server's frames: " + client}
     if c.get("settle"):
@@ -498,19 +669,20 @@ _DRAIN_CHECKS = [0]     # how often the oracle's termination clause applied (deb
 BIG = 1 << 20
 
 
-def _settle(rng, sids, nwrites, variant=None, drain=0):
+def _settle(rng, sids, nwrites, variant=None, drain=0, tr=False, big=BIG):
     """Open every window (by WINDOW_UPDATE or by SETTINGS), run the loop, finish everything, run the loop.
+    `big`: the window opened (at least every byte ever written, so that nothing stays blocked).
     `drain`: a lower bound for the length of the runs (the bound of stream_body_complete_in_order: queued bytes +
     queued chunks + 1; the runs stop as soon as the loop parks, so a large bound costs nothing)."""
     n = max(3 * nwrites + 6 * len(sids) + 12, drain)
     v = rng.randrange(3) if variant is None else variant
-    ops = []
+    ops = [["tr"]] if tr else []
     if v == 0:
-        ops += [["wu", 0, BIG]] + [["wu", s, BIG] for s in sids] + [["run", n]] + [["fin", s] for s in sids] + [["run", n]]
+        ops += [["wu", 0, big]] + [["wu", s, big] for s in sids] + [["run", n]] + [["fin", s] for s in sids] + [["run", n]]
     elif v == 1:
-        ops += [["iws", BIG], ["wu", 0, BIG], ["run", n]] + [["fin", s] for s in sids] + [["run", n]]
+        ops += [["iws", big], ["wu", 0, big], ["run", n]] + [["fin", s] for s in sids] + [["run", n]]
     else:
-        ops += [["fin", s] for s in sids] + [["run", 3]] + [["wu", s, BIG] for s in sids] + [["wu", 0, BIG], ["run", n]]
+        ops += [["fin", s] for s in sids] + [["run", 3]] + [["wu", s, big] for s in sids] + [["wu", 0, big], ["run", n]]
     return ops
 
 
@@ -541,16 +713,68 @@ def corpus():
         # … and one byte short (stream window 2): the loop neither sends the rest nor parks, until WINDOW_UPDATE
         {"ops": [["req", 1], ["req", 3], ["w", 1, 1, 3], ["w", 3, 4, 2], ["fin", 1], ["iws", 2]]
                 + [["tick", 0]] * 20 + [["wu", 1, 1], ["run", 4]]},
+        # --- transport back-pressure (H2Connection.pauseProducing / resumeProducing) ---
+        # a chunk is queued and the loop runs while the transport is paused: nothing may be lost
+        S([["req", 1], ["tp"], ["w", 1, 0, 5], ["tick", 0], ["tr"], ["run", 3]]),
+        S([["req", 1], ["w", 1, 0, 5], ["w", 1, 5, 6], ["tp"], ["tick", 0], ["tick", 0], ["w", 1, 11, 7], ["tr"], ["run", 5]]),
+        # the response starts while the transport is paused: HEADERS are buffered and must precede the DATA
+        S([["req", 1], ["req", 3], ["run", 2], ["tp"], ["w", 1, 0, 5], ["w", 3, 9, 4], ["wu", 0, 10], ["iws", 70000], ["tr"],
+           ["run", 5]], (1, 3)),
+        # the loop is parked when the transport pauses; a write wakes it, it waits behind the transport; window
+        # updates arrive meanwhile
+        S([["iws", 4], ["req", 1], ["run", 2], ["tp"], ["reg", 1], ["pw", 1, 0, 9], ["tick", 0], ["wu", 1, 3], ["tr"],
+           ["run", 4], ["wu", 1, 50], ["run", 4]]),
+        # --- re-entrant producers: write / unregister / finish from inside resumeProducing() ---
+        # paused with the plan exhausted after an exact fill; resumed by SETTINGS / by a stream WINDOW_UPDATE / by a
+        # connection WINDOW_UPDATE with the loop parked: it finishes inside the callback, the stream goes away while
+        # _windowsChanged / _handleWindowUpdate are still running
+        {"ops": [["iws", 10], ["req", 1], ["run", 2], ["areg", 1, [[0, 10]], 1], ["run", 3], ["iws", 100], ["run", 3]], "settle": True},
+        {"ops": [["iws", 10], ["req", 1], ["run", 2], ["areg", 1, [[0, 10]], 1], ["run", 3], ["wu", 1, 50], ["run", 3]], "settle": True},
+        {"ops": [["req", 1], ["req", 3], ["req", 5], ["areg", 3, [[0, 40000], [7, 25535]], 1], ["run", 9], ["wu", 0, 5], ["run", 3]]
+                + _settle(None, [1, 3, 5], 4, 0), "settle": True},
+        S([["iws", 6], ["req", 1], ["req", 3], ["areg", 1, [[0, 4], [4, 4], [8, 4], [12, 4]], 1], ["areg", 3, [[3, 6], [9, 1]], 0],
+           ["run", 6], ["wu", 1, 3], ["run", 4], ["iws", 9], ["run", 6], ["wu", 3, 1], ["run", 3]], (1, 3)),
+        # --- H2Stream.writeSequence: lists, tuples, one-shot iterables, empty chunks ---
+        S([["req", 1], ["ws", 1, "gen", [[0, 3], [3, 4]]], ["run", 3]]),
+        S([["req", 1], ["ws", 1, "iter", [[0, 0], [3, 4], [7, 0]]], ["ws", 1, "tuple", [[9, 2]]], ["ws", 1, "list", [[0, 0]]], ["run", 6]]),
+        S([["iws", 0], ["req", 1], ["ws", 1, "gen", [[0, 0]]], ["run", 2], ["ws", 1, "gen", [[0, 0], [5, 5]]], ["wu", 1, 2], ["run", 4]]),
+        # --- peer PRIORITY frames: for an idle stream (before its HEADERS), for an open stream ---
+        S([["prio", 3, 16, 0, 0], ["tick", 0], ["req", 1], ["w", 1, 0, 5], ["req", 3], ["w", 3, 0, 5], ["run", 4]], (1, 3)),
+        S([["req", 1], ["prio", 1, 256, 0, 1], ["w", 1, 0, 5], ["prio", 5, 1, 1, 0], ["req", 3], ["req", 5], ["w", 5, 1, 2], ["tick", 1],
+           ["prio", 3, 16, 5, 1], ["run", 4]], (1, 3, 5)),
     ]
 
 
-def _case(rng, regime=None):
+EXTRAS = ("tp", "auto", "ws", "prio")
+
+
+def _extras(rng):
+    """Which of the op classes outside the basic language a case uses: none (55 %), one, or two of
+    tp = transport pause/resume, auto = re-entrant producers, ws = writeSequence, prio = peer PRIORITY."""
+    if rng.random() < 0.55:
+        return ()
+    ext = {rng.choice(EXTRAS)}
+    if rng.random() < 0.3:
+        ext.add(rng.choice(EXTRAS))
+    return tuple(sorted(ext))
+
+
+def _case(rng, regime=None, extras=None):
     n = rng.choice([1, 1, 2, 2, 3, 4])
     sids = SIDS[:n]
     regime = regime or rng.choice(["small", "small", "small", "big", "mixed"])
+    ext = _extras(rng) if extras is None else extras
     ops = []
+    # half of the ws-only / prio-only cases stay inside what the model covers (no empty chunk; PRIORITY only for
+    # streams that are open), so that these classes are model-compared too
+    pure = bool(ext) and set(ext) <= {"ws", "prio"} and rng.random() < 0.5
+    if "prio" in ext and not pure and rng.random() < 0.5:       # PRIORITY before any HEADERS
+        ops.append(["prio", rng.choice(sids), rng.choice([1, 16, 256]), 0, rng.randrange(2)])
+    cur_iws = INITIAL_WINDOW
     if regime != "big":
-        ops.append(["iws", rng.choice([0, 1, 2, 5, 10, 20, 50])])
+        cur_iws = rng.choice([0, 1, 2, 5, 10, 20, 50])
+        ops.append(["iws", cur_iws])
+    tp_guess = False
     opened, nwrites = [], 0
     length = rng.randint(3, 40)
 
@@ -566,12 +790,76 @@ def _case(rng, regime=None):
             return rng.choice([1, 100, 16384, 20000, 65535, 70000])
         return rng.choice([1, 1, 2, 3, 5, 8, 10, 20, 40])
 
+    def split(total, parts):
+        cuts = sorted(rng.randint(1, total) for _ in range(parts - 1)) if total > 1 else []
+        sizes = [b - a for a, b in zip([0] + cuts, cuts + [total])]
+        return [[rng.randrange(251), x] for x in sizes if x > 0]
+
     for _ in range(length):
         if len(opened) < n and (not opened or rng.random() < 0.25):
             opened.append(sids[len(opened)])
             ops.append(["req", opened[-1]])
             continue
         sid = rng.choice(opened)
+        if ext and rng.random() < 0.22:
+            x = rng.choice(ext)
+            if x == "tp":
+                if tp_guess and rng.random() < 0.75:
+                    ops.append(["tr"])
+                    tp_guess = False
+                else:
+                    ops.append(["tp"])
+                    tp_guess = True
+                    if rng.random() < 0.5:  # writes (maybe the first of a response), loop iterations, window updates
+                        for _ in range(rng.randint(1, 4)):     # while the transport is paused
+                            y = rng.random()
+                            t = rng.choice(opened)
+                            if y < 0.45:
+                                ops.append(["w", t, rng.randrange(251), size()])
+                                nwrites += 1
+                            elif y < 0.75:
+                                ops.append(["tick", rng.randrange(4)])
+                            elif y < 0.9:
+                                ops.append(["wu", rng.choice([0, t]), win()])
+                            else:
+                                ops.append(["fin", t])
+                        if rng.random() < 0.7:
+                            ops.append(["tr"])
+                            tp_guess = False
+            elif x == "auto":
+                if 0 < cur_iws <= 70000 and rng.random() < 0.5:
+                    plan = split(cur_iws, rng.randint(1, 3))      # fills the stream window exactly
+                else:
+                    plan = [[rng.randrange(251), size()] for _ in range(rng.randint(0, 4))]
+                ops.append(["areg", sid, plan, int(rng.random() < 0.6)])
+                nwrites += len(plan)
+                if rng.random() < 0.75:     # let it run against the window edge, then open the window
+                    ops.append(["run", rng.randint(2, 6)])
+                    for _ in range(rng.randint(1, 2)):
+                        y = rng.random()
+                        if y < 0.4:
+                            ops.append(["wu", sid, win()])
+                        elif y < 0.6:
+                            ops.append(["wu", 0, win()])
+                        else:
+                            cur_iws = cur_iws + win() if cur_iws < 60000 else cur_iws
+                            ops.append(["iws", cur_iws])
+                        if rng.random() < 0.5:
+                            ops.append(["run", rng.randint(1, 4)])
+            elif x == "ws":
+                chunks = [[rng.randrange(251), size()] for _ in range(rng.randint(1, 4))]
+                if not pure and rng.random() < 0.5:
+                    for _ in range(rng.randint(1, 2)):
+                        chunks.insert(rng.randint(0, len(chunks)), [0, 0])
+                    if rng.random() < 0.3:
+                        chunks = [[0, 0]] * rng.randint(1, 2)
+                ops.append(["ws", sid, rng.choice(["list", "tuple", "iter", "gen"]), chunks])
+                nwrites += len(chunks)
+            else:
+                tgt = rng.choice(opened if pure else sids + [9])
+                ops.append(["prio", tgt, rng.choice([1, 16, 255, 256]), rng.choice([0, 0] + [s_ for s_ in sids if s_ != tgt]),
+                            rng.randrange(2)])
+            continue
         r = rng.random()
         if r < 0.22:
             ops.append(["w", sid, rng.randrange(251), size()])
@@ -588,7 +876,8 @@ def _case(rng, regime=None):
         elif r < 0.62:
             ops.append(["wu", rng.choice([0, sid, sid]), win()])
         elif r < 0.70:
-            ops.append(["iws", rng.choice([0, 1, 3, 10, 30, 100]) if regime != "big" else rng.choice([0, 100, 16384, 65535, 100000])])
+            cur_iws = rng.choice([0, 1, 3, 10, 30, 100]) if regime != "big" else rng.choice([0, 100, 16384, 65535, 100000])
+            ops.append(["iws", cur_iws])
         elif r < 0.73:
             ops.append(["mfs", rng.choice([16384, 16385, 20000, 32768, 16777215])])
         elif r < 0.90:
@@ -598,20 +887,28 @@ def _case(rng, regime=None):
     for s in sids:
         if s not in opened:
             ops.append(["req", s])
-    nw = sum(1 + op[3] // DEFAULT_MFS for op in ops if op[0] in ("w", "pw"))
+    chunks = [op[3] for op in ops if op[0] in ("w", "pw")]
+    chunks += [x for op in ops if op[0] == "areg" for _, x in op[2]] + [x for op in ops if op[0] == "ws" for _, x in op[3]]
+    nw = sum(1 + x // DEFAULT_MFS for x in chunks)
     # half of the cases: the settle runs are longer than Σ(bytes + chunks) of everything ever written, so the
     # oracle's termination clause (stream_body_complete_in_order on the real code) applies to them
     drain = 0
     if rng.random() < 0.5:
-        drain = sum(op[3] + 1 for op in ops if op[0] in ("w", "pw")) + len(sids) + 1
-    ops += _settle(rng, sids, nw, drain=drain)
+        drain = sum(x + 1 for x in chunks) + len(sids) + 1
+    ops += _settle(rng, sids, nw, drain=drain, tr="tp" in ext, big=max(BIG, sum(chunks) + 70000))
     return {"ops": ops, "settle": True}
 
 
 def generate(rng, tier):
     n = 700 if tier == "quick" else 17000
     for _ in range(n):
-        yield _case(rng)
+        yield _case(rng, extras=())         # the basic language: every case is model-compared
+    # a further batch that always uses one or two of the extra op classes (mostly oracle-only: cheap)
+    for _ in range(500 if tier == "quick" else 8000):
+        ext = _extras(rng)
+        while not ext:
+            ext = _extras(rng)
+        yield _case(rng, "small" if rng.random() < 0.7 else None, ext)
 
 
 def search(rng, tier, disagreeing):
@@ -632,15 +929,52 @@ def shrink(c):
                 yield {"ops": ops[:i] + [op[:2] + [m]] + ops[i + 1:]}
         if op[0] == "run" and op[1] > 1:
             yield {"ops": ops[:i] + [["run", op[1] // 2]] + ops[i + 1:]}
+        if op[0] in ("areg", "ws"):
+            j = 2 if op[0] == "areg" else 3
+            for x in range(len(op[j])):
+                yield {"ops": ops[:i] + [op[:j] + [op[j][:x] + op[j][x + 1:]] + op[j + 1:]] + ops[i + 1:]}
+
+
+INIT_STATE = "sc%dm%d[]" % (INITIAL_WINDOW, DEFAULT_MFS)
 
 
 def compare(c, impl_out, model_out):
-    return impl_out.split("|client:")[0] == model_out
+    toks = _model_tokens(c)
+    if toks is None:
+        return True
+    impl = impl_out.split("|client:")[0].split("|")
+    model = model_out.split("|")
+    if len(impl) != len(toks) or len(model) != sum(len(t) for t in toks):
+        return False
+    i, prev = 0, INIT_STATE
+    for seg, ts in zip(impl, toks):
+        if not ts:          # PRIORITY on an open stream: no frame, no state change
+            if seg.lstrip("~") != ";" + prev:
+                return False
+            continue
+        part = model[i:i + len(ts)]
+        i += len(ts)
+        if len(part) == 1:
+            want = part[0]
+        else:               # writeSequence = the writes one after the other
+            skipped = [m.startswith("~") for m in part]
+            if all(skipped):
+                want = part[-1]
+            elif any(skipped):
+                return False
+            else:
+                evs = [e for m in part for e in m.partition(";")[0].split(".") if e]
+                want = ".".join(evs) + ";" + part[-1].partition(";")[2]
+        if seg != want:
+            return False
+        prev = seg.partition(";")[2]
+    return True
 
 
 def tag(c, out):
     kinds = "".join(sorted({{"req": "q", "w": "w", "pw": "p", "reg": "g", "unreg": "u", "fin": "f", "wu": "W", "iws": "I",
-                             "mfs": "M", "tick": "t", "run": "r"}[op[0]] for op in c["ops"]}))
+                             "mfs": "M", "tick": "t", "run": "r", "tp": "T", "tr": "U", "areg": "A", "ws": "S",
+                             "prio": "O"}[op[0]] for op in c["ops"]}))
     nstreams = len({op[1] for op in c["ops"] if op[0] == "req"})
     feats = []
     if "w-" in out:
@@ -657,4 +991,12 @@ def tag(c, out):
         feats.append("died")
     if "~" in out:
         feats.append("skip")
+    if ";w" in out:
+        feats.append("behind-transport")
+    if re.search(r"R\d+\.(W|F)", out):
+        feats.append("reentrant-" + ("fin" if re.search(r"R\d+\.F", out) else "write"))
+    if any(op[0] == "ws" and any(x == 0 for _, x in op[3]) for op in c["ops"]):
+        feats.append("empty-chunk")
+    if any(op[0] == "ws" and op[2] in ("iter", "gen") for op in c["ops"]):
+        feats.append("one-shot")
     return "%s:n%d:%s" % (kinds, nstreams, "+".join(feats))
